@@ -32,6 +32,12 @@ func main() {
 	dir, clean := vlib.Scratch("c03")
 	dnsfix.Quiet(dir)
 	only := os.Getenv("C03_ONLY") // debugging aid: "A", "B", "C" or "" (all)
+	for i, a := range os.Args {
+		if a == "--replay" && i+1 < len(os.Args) {
+			clean()
+			runReplay(os.Args[i+1])
+		}
+	}
 
 	alpha := buildAlphabet(4)
 	clients := buildClients(alpha)
@@ -40,7 +46,7 @@ func main() {
 	kA := r.Pick(3, 4)
 	if only == "" || only == "A" {
 		la = newLevelA(r, alpha, clients)
-		la.run(kA)
+		la.run(kA, start.Add(capSeconds(r.Pick(40, 400))))
 		la.samples()
 	}
 
@@ -49,15 +55,14 @@ func main() {
 	// marks the run non-exhaustive. No verdict depends on time.
 	var lc *levelC
 	if only == "" || only == "C" {
-		lc = runLevelC(r, dir, start.Add(capSeconds(r.Pick(45, 240))))
+		lc = runLevelC(r, dir, time.Now().Add(capSeconds(r.Pick(25, 150))))
 	}
 	var lb *levelB
 	if only == "" || only == "B" {
-		lb = runLevelB(r, dir, start.Add(capSeconds(r.Pick(95, 780))))
+		lb = runLevelB(r, dir, start.Add(capSeconds(r.Pick(100, 850))))
 	}
 	clean()
 	dumpFPs()
-	stopProf()
 
 	var states, evals, nontriv int64
 	if la != nil {
@@ -69,6 +74,7 @@ func main() {
 		r.Set("A_max_set_size", kA)
 		r.Set("A_clients", len(clients))
 		r.Set("A_sets", la.sets)
+		r.Set("A_tasks_skipped_by_time_cap", la.skipped)
 		r.Set("A_sets_by_size", fmt.Sprint(la.setsBySize[1:kA+1]))
 		r.Set("A_evaluations", la.evals)
 		r.Set("A_expected_some_location", la.nontrivial)
@@ -109,7 +115,7 @@ func main() {
 	r.Set("evaluations", evals)
 	r.Set("traces_validated_against_impl", evals)
 	r.Set("distinct_nontrivial", nontriv)
-	r.Set("rule", "A: all sets of <=k distinct subnets (each tagged with one of 2 locations, all taggings) from the alphabet {0.0.0.0/0, ::/0, 8 address-space edges, the 31-node binary tree /6../10 under 8.0.0.0/6, the 31-node tree /30../34 under 2001:db8::/30}; each set goes as '%' lines through the real Codec (Rnet.UnmarshalText, Accum, SubnetRanger, Rearranger.AddLocation/Rearrange, Rrangepoint.MarshalMap) and the resulting range-point keys are read by predecessor search as GetLocationByMap does, for every client of the universe (first/last/just-outside addresses of every alphabet prefix at lengths own-1, own, own+1, full; masked). B: all sets of <=2 subnets compiled by cdb.CreateCDBFromReader / rdb.Compile into real stores inside several surroundings and looked up with Reader.ResolverLocation (full-length clients) and Reader.EcsLocation (all clients). C: all sets of <=3 map declarations over 8 owners x {M,8}, looked up for every query name. states = subnet sets (A) + compiled databases (B, C); transitions = evaluations = client (or name) lookups compared with the oracle; nontrivial = lookups for which the oracle expects a location (A, B) or a map (C). Only minimal failing cases are reported: a set whose failure (same client, same kind of disagreement) is not shown by a proper subset.")
+	r.Set("rule", "A: all sets of <=k distinct subnets (each tagged with one of 2 locations, all taggings) from the alphabet {0.0.0.0/0, ::/0, 8 address-space edges, the 31-node binary tree /6../10 under 8.0.0.0/6, the 31-node tree /30../34 under 2001:db8::/30}; each set goes as '%' lines through the real Codec (Rnet.UnmarshalText, Accum, SubnetRanger, Rearranger.AddLocation/Rearrange, Rrangepoint.MarshalMap) and the resulting range-point keys are read by predecessor search as GetLocationByMap does, for every client of the universe (first/last/just-outside addresses of every alphabet prefix at lengths own-1, own, own+1, full; masked). B: all sets of <=2 subnets (quick: over the 24-prefix sub-alphabet with trees of depth 2; thorough: the full alphabet) compiled by cdb.CreateCDBFromReader / rdb.Compile into real stores inside several surroundings and looked up with Reader.ResolverLocation (full-length clients) and Reader.EcsLocation (all clients). C: all sets of <=3 map declarations over 8 owners x {M,8}, looked up for every query name. states = subnet sets (A) + compiled databases (B, C); transitions = evaluations = client (or name) lookups compared with the oracle; nontrivial = lookups for which the oracle expects a location (A, B) or a map (C). Only minimal failing cases are reported: a set whose failure (same client, same kind of disagreement) is not shown by a proper subset.")
 	r.Assume = []string{
 		"IPv6-family clients inside ::ffff:0:0/96 with prefix length >=96 are not generated (the statement does not say which family they belong to)",
 		"level B enumerates location taggings up to renaming of the two locations (level A enumerates all taggings)",
